@@ -239,9 +239,9 @@ impl<L: Language> NthChild<L> {
       .position(|child| child.node_id() == node.node_id())
   }
   /// ofRule is tried on the node's siblings including the node itself
-  pub(crate) fn check_cyclic(&self, id: &str) -> bool {
+  pub(crate) fn check_cyclic(&self, id: &str, visited: &mut HashSet<String>) -> bool {
     if let Some(rule) = &self.of_rule {
-      rule.check_cyclic(id)
+      rule.check_cyclic_impl(id, visited)
     } else {
       false
     }
